@@ -1,9 +1,9 @@
 ---------------------------- MODULE ReportTrace ----------------------------
 (***************************************************************************)
 (* Validation of real reports (projected to trees of typed nodes by        *)
-(* `acvh reporttree`) against Report.tla: the positional id scheme, the    *)
-(* shape grammar, grounding of focus nodes and completeness of results     *)
-(* (C12).  One trace line per report:                                      *)
+(* `acvh reporttree`): every typed node has an @id and all @ids of the    *)
+(* document are pairwise distinct, focus nodes are grounded in the input   *)
+(* graph, results are complete (C12).  One trace line per report:                                      *)
 (*   [id, valid, report: node, instanceIds, graphIds, validations]         *)
 (*   node = [id, kind, scalars, maps, arrays]                              *)
 (* Lines that fail are collected in TLC register 3; the walk never stops.  *)
@@ -31,55 +31,37 @@ IdsOf(n) ==
 
 Injective(s) == \A i, j \in 1..Len(s) : i # j => s[i] # s[j]
 
-\* node n sits at the position whose id the scheme says is `id`; it is of kind `kind`
-RECURSIVE WF(_, _, _, _, _)
-WF(n, id, kind, inSub, ctx) ==
-  /\ n.id = id
-  /\ n.kind = kind
-  /\ DOMAIN n.arrays \subseteq ArraySlots(kind)
-  /\ DOMAIN n.maps \subseteq MapSlots(kind)
-  /\ \A s \in DOMAIN n.maps : WF(n.maps[s], ChildId(id, s, FALSE, 0), ChildKind(kind, s), inSub, ctx)
+\* C12 fixes no spelling of ids, no order of results and no set of slots: a node is well formed by what it carries.
+\* (The positional scheme of the current implementation is a design-level model in Report.tla / ReportIdCases.tla.)
+RECURSIVE WF(_, _, _)
+WF(n, inSub, ctx) ==
+  /\ n.id # ""                                                  \* every typed node has an @id
+  /\ \A s \in DOMAIN n.maps : WF(n.maps[s], inSub, ctx)
   /\ \A s \in DOMAIN n.arrays :
-        \A i \in 1..Len(n.arrays[s]) :
-           WF(n.arrays[s][i], ChildId(id, s, TRUE, i - 1), ChildKind(kind, s), inSub \/ s = "subResult", ctx)
-  /\ CASE kind = "result" ->
+        \A i \in 1..Len(n.arrays[s]) : WF(n.arrays[s][i], inSub \/ s = "subResult", ctx)
+  /\ CASE n.kind = "result" ->
             /\ Has(n.scalars, "focusNode") /\ n.scalars["focusNode"] \in ctx.graph
             /\ Has(n.scalars, "sourceShapeName")
             /\ IF inSub THEN n.scalars["sourceShapeName"] = "nested" ELSE n.scalars["sourceShapeName"] \in ctx.validations
             /\ Has(n.scalars, "resultMessage") /\ n.scalars["resultMessage"] # ""
             /\ Has(n.arrays, "trace") /\ Len(n.arrays["trace"]) >= 1
-       [] kind = "trace" ->
+            /\ \A i \in 1..Len(n.arrays["trace"]) : n.arrays["trace"][i].kind = "trace"
+       [] n.kind = "trace" ->
             /\ Has(n.scalars, "component") /\ n.scalars["component"] # ""
             /\ Has(n.scalars, "resultPath") /\ n.scalars["resultPath"] # ""
-            /\ Has(n.maps, "traceValue")
-       [] kind = "location" -> Has(n.scalars, "uri") /\ Has(n.maps, "range")
-       [] kind = "range" -> Has(n.maps, "start") /\ Has(n.maps, "end")
-       [] kind = "position" -> Has(n.scalars, "line") /\ Has(n.scalars, "column")
+       [] n.kind = "traceValue" ->
+            Has(n.arrays, "subResult") => \A i \in 1..Len(n.arrays["subResult"]) : n.arrays["subResult"][i].kind = "result"
        [] OTHER -> TRUE
-
-SevLevel(sev) == CASE sev = "http://www.w3.org/ns/shacl#Violation" -> "violation"
-                   [] sev = "http://www.w3.org/ns/shacl#Warning" -> "warning"
-                   [] sev = "http://www.w3.org/ns/shacl#Info" -> "info"
-                   [] OTHER -> "unknown"
 
 ReportOK(line) ==
   LET r == line.report
       ctx == [graph |-> ToSet(line.graphIds), validations |-> ToSet(line.validations)]
       results == IF Has(r.arrays, "result") THEN r.arrays["result"] ELSE <<>>
-      level(i) == IF Has(results[i].scalars, "resultSeverity") THEN SevLevel(results[i].scalars["resultSeverity"]) ELSE "unknown"
-      ordinal(i) == Cardinality({j \in 1..(i - 1) : level(j) = level(i)})
-      allIds == <<r.id>> \o line.instanceIds
-                  \o SeqCat([i \in 1..Len(results) |-> IdsOf(results[i])])
-  IN /\ line.valid = ""
-     /\ r.kind = "report" /\ r.id = "validation-report"
-     /\ Has(r.scalars, "conforms")
-     /\ r.scalars["conforms"] = (IF \E i \in 1..Len(results) : level(i) = "violation" THEN "false" ELSE "true")
-     /\ \A i \in 1..Len(results) :
-          /\ level(i) # "unknown"
-          /\ WF(results[i], RootId(level(i), ordinal(i)), "result", FALSE, ctx)
-     \* violations first, then warnings, then infos
-     /\ \A i, j \in 1..Len(results) :
-          i < j => ~(level(i) = "warning" /\ level(j) = "violation") /\ ~(level(i) = "info" /\ level(j) # "info")
+      allIds == line.instanceIds \o IdsOf(r)
+  IN /\ line.valid = ""                     \* a JSON document holding one dialect instance that encodes one node
+     /\ r.kind = "report" /\ r.id # ""
+     /\ \A i \in 1..Len(results) : results[i].kind = "result"
+     /\ WF(r, FALSE, ctx)
      /\ Injective(allIds)
 
 VARIABLE l
